@@ -41,6 +41,7 @@ def main():
         print("no demo_test.go; manual verification needed"); return finish(prop, k, src, meta, res, False)
     pkg = re.search(r"^package\s+(\w+)", open(demo).read(), re.M).group(1)
     pkgdir = pkg[:-5] if pkg.endswith("_test") else pkg
+    if pkgdir == "parser": pkgdir = "gen"
     text = meta.get("demo", "")
     if isinstance(text, (dict, list)):
         text = json.dumps(text)
